@@ -22,3 +22,9 @@ Definition ok (nonp : list (N * N)) (c : case) : bool :=
     end
   end.
 Definition mismatches (nonp : list (N * N)) (l : list case) : list nat := mism (ok nonp) l.
+
+(* the constant tables of _utils.py, extracted from the source text on every run (harness/vh/tokenscorr.py: source_tables, fail-closed),
+   against the tables the model and its theorems speak about *)
+Definition tables_ok (q3' q1' closers' comma' fpre' : list (list N)) : bool :=
+  list_eqb Util.str_eqb q3' q3s && list_eqb Util.str_eqb q1' q1 && list_eqb Util.str_eqb closers' closers
+  && list_eqb Util.str_eqb comma' [comma] && list_eqb Util.str_eqb fpre' fprefixes.
